@@ -37,10 +37,12 @@ def first_layer(cfg):
     return m.group(1) if m else '?'
 
 
-def rand_hist(rng, keys, gaps, n, f12_prob=0.0):
+def rand_hist(rng, keys, gaps, n, f12_prob=0.0, repeats=0.0):
     h = []
     down = []
     for t in gen.HistGen(rng, keys, gaps).consistent(n):
+        if repeats and down and t[0] == 't' and rng.random() < repeats:
+            h += ['r' + rng.choice(down), 't1']        # OS auto-repeat of a held key (resolved through the key-outputs table)
         if t[0] == 'p':
             h.append('d' + t.split(',')[1]); down.append(t.split(',')[1])
         elif t[0] == 'r':
@@ -88,7 +90,7 @@ def gen_cases(rng, tier):
         g2 = gen.CfgGen(rng, 'all'); new = g2.gen()
         k1, k2 = gen.codes_of(g1.src), gen.codes_of(g2.src)
         h1, down = rand_hist(rng, k1, gen.gaps_for(g1.timeouts), rng.randint(0, 12))
-        h2, down2 = rand_hist(rng, k2, gen.gaps_for(g2.timeouts), rng.randint(3, 14))
+        h2, down2 = rand_hist(rng, k2, gen.gaps_for(g2.timeouts), rng.randint(3, 14), repeats=0.5)
         tail = ['u' + d for d in down2] + ['t1500', 'q']
         held_at_request = bool(down) and rng.random() < 0.5
         pre = h1 + ([] if held_at_request else ['u' + d for d in down] + ['t%d' % rng.choice([1, 5, 40, 400])])
